@@ -330,3 +330,67 @@ contract(MB, 'AutomatonBuilder.build', {'self': 'Builder'}, returns='Automaton',
          ensures=['result == self.A', 'all((x in result.states) == %s for x in atoms())' % _decl('x').replace('self.A', 'old(self.A)'),
                   'self.A.transitions == old(self.A.transitions)', 'self.A.initial_states == old(self.A.initial_states)', 'self.A.final_states == old(self.A.final_states)', 'self.A.items == old(self.A.items)'],
          theories=TH, props=['C17'], note='the generic description with its state set filled in; raises exactly when a used state is undeclared or a state name is malformed')
+
+
+# ------------------------------------------------------------------------------------------------ TM descriptions (labels "ab,d": characters 0, 1, 3)
+MT = 'gambatools.tm_algorithms'
+contract(MB, 'AutomatonBuilder.get_symbol_set', {'self': 'Builder', 'key': 'Atom', 'used_symbols': 'None'}, returns='Opt[Set[Atom]]', variant='none', defaults={'used_symbols': 'None'},
+         ensures=['implies(key in self.A.items, result == list_elems(self.A.items[key]))', 'implies(key not in self.A.items, result == None)'],
+         types={'declared_symbols': 'Set[Atom]'}, theories=TH, props=['C17'],
+         note='entry point without used symbols: the declared alphabet, or None when there is no declaration; never raises')
+contract(MT, 'TMBuilder.used_tape_symbols', {'self': 'Builder'}, returns='Set[Atom]', types={'result': 'Set[Atom]'},
+         raises=_SHORT(1),
+         ensures=['all((x in retval) == (x in tr_chars(%s, %s, 0) or x in tr_chars(%s, %s, 1)) for x in atoms())' % (_T, _N, _T, _N)],
+         loops={1: {'ghost': 'idx', 'invariant': ['A == self.A', 'all((x in result) == (x in tr_chars(%s, idx, 0) or x in tr_chars(%s, idx, 1)) for x in atoms())' % (_T, _T),
+                                                  'all(implies(0 <= t and t < idx, strlen(%s[t][1]) > 1) for t in ints())' % _T]}},
+         theories=TH, props=['C17'], note='the first and second characters of the labels (IndexError exactly when a label has fewer than two characters)')
+_ACC = "(self.A.items['accept'][0] if 'accept' in self.A.items else self._fresh_state(self.A.states, 'accept'))"
+_REJ = "(self.A.items['reject'][0] if 'reject' in self.A.items else self._fresh_state(self.A.states, 'reject'))"
+_BLANK = "(self.A.items['blank'][0] if 'blank' in self.A.items else ('□' if any(str_contains(%s[t][1], '□') for t in range(%s)) else '_'))" % (_T, _N)
+def _tdecl(x): return '((%s and %s in self.A.states) or (not %s and (%s or %s == ACC0 or %s == REJ0)))' % (_HAS_STATES, x, _HAS_STATES, used('self.A', x), x, x)
+_TKEY, _IKEY = "'tape_symbols'", "'input_symbols'"
+def _tused(x): return '(%s in tr_chars(%s, %s, 0) or %s in tr_chars(%s, %s, 1))' % (x, _T, _N, x, _T, _N)
+def _tape(x): return "((%s in self.A.items and %s in list_elems(self.A.items[%s])) or (%s not in self.A.items and %s))" % (_TKEY, x, _TKEY, _TKEY, _tused(x))
+_HASIN = "(%s in self.A.items and any(y in list_elems(self.A.items[%s]) for y in atoms()))" % (_IKEY, _IKEY)
+def _tinput(x): return "((%s and %s in list_elems(self.A.items[%s])) or (not %s and %s and %s != BLANK0))" % (_HASIN, x, _IKEY, _HASIN, _tape(x), x)
+def _gamma(x): return '(%s or %s == BLANK0)' % (_tape(x), x)
+def _last(t, hi, T=_T):       # no later line (before hi) has the same (state, symbol): line t is the one that survives in the transition function
+    return '(not any(%s < t2 and t2 < %s and %s[t2][0] == %s[%s][0] and char_at(%s[t2][1], 0) == char_at(%s[%s][1], 0) for t2 in ints()))' % (t, hi, T, T, t, T, T, t)
+_TM_RAISES = [
+    'any(%s and not %s for x in atoms())' % (used('self.A'), _tdecl('x')),                                            # 0 a used state is not declared
+    'any(%s and not re_fullmatch(self.state_regex, x) for x in atoms())' % _tdecl('x'),                               # 1 a state name is malformed
+    NOT_ONE_INITIAL % 'self.A',                                                                                       # 2 not exactly one initial state
+    "('accept' in self.A.items and len(self.A.items['accept']) != 1)",                                                # 3
+    "('reject' in self.A.items and len(self.A.items['reject']) != 1)",                                                # 4
+    "('blank' in self.A.items and len(self.A.items['blank']) != 1)",                                                  # 5
+    _LEN4,                                                                                                            # 6 a label does not have four characters
+    "(%s in self.A.items and any(%s and x not in list_elems(self.A.items[%s]) for x in atoms()))" % (_TKEY, _tused('x'), _TKEY),   # 7 a used tape symbol is not declared
+    'not %s' % _tdecl('ACC0'),                                                                                        # 8 the accepting state is not a state
+    'not %s' % _tdecl('REJ0'),                                                                                        # 9 the rejecting state is not a state
+    'ACC0 == REJ0',                                                                                                   # 10
+    _tinput('BLANK0'),                                                                                                # 11 the blank is an input symbol
+    'any(%s and not %s for x in atoms())' % (_tinput('x'), _gamma('x')),                                              # 12 an input symbol is not a tape symbol
+    "any(0 <= t and t < %s and %s and char_at(%s[t][1], 3) != 'L' and char_at(%s[t][1], 3) != 'R' for t in ints())" % (_N, _last('t', _N), _T, _T),     # 13 the direction of a surviving line is neither L nor R
+]
+def _o(s): return s.replace('self.A', 'old(self.A)')
+contract(MT, 'TMBuilder.build', {'self': 'Builder'}, returns='TM', modifies=['self'], type_invariants=FIN,
+         ghost={'ACC0': _ACC, 'REJ0': _REJ, 'BLANK0': _BLANK},
+         raises=_TM_RAISES,
+         raise_witness={'AutomatonBuilder__check_states_are_declared': 0, 'AutomatonBuilder__check_state_labels': 1, 'AutomatonBuilder__check_one_initial_state': 2,
+                        'AutomatonBuilder_parse_symbol': 5, 'TMBuilder_used_tape_symbols': 6, 'unpack': 6, 'AutomatonBuilder_get_symbol_set': 7,
+                        'ctor#1': None, 'ctor#2': 8, 'ctor#3': 9, 'ctor#4': 10, 'ctor#5': 11, 'ctor#6': None, 'ctor#7': 12, 'ctor#8': 13},
+         ensures=['all((x in result.Q) == %s for x in atoms())' % _o(_tdecl('x')),
+                  'all((x in result.Sigma) == %s for x in atoms())' % _o(_tinput('x')),
+                  'all((x in result.Gamma) == %s for x in atoms())' % _o(_gamma('x')),
+                  'result.blank == BLANK0', 'result.q_accept == ACC0', 'result.q_reject == REJ0', 'result.q0 in old(self.A.initial_states)',
+                  'all(implies(0 <= t and t < len(%s), (%s[t][0], char_at(%s[t][1], 0)) in result.delta) for t in ints())' % ((_OT,) * 3),
+                  'all(implies((x, y) in result.delta, any(0 <= t and t < len(%s) and %s[t][0] == x and char_at(%s[t][1], 0) == y and %s and result.delta[(x, y)] == (%s[t][2], char_at(%s[t][1], 1), char_at(%s[t][1], 3)) for t in ints())) for x in atoms() for y in atoms())' % (_OT, _OT, _OT, _last('t', 'len(%s)' % _OT, _OT), _OT, _OT, _OT)]
+                 + [k for k in _KEEPS if 'result.Q' not in k],
+         types={'delta': 'Map[(Atom,Atom),(Atom,Atom,Atom)]'},
+         loops={1: {'ghost': 'idx', 'invariant': [
+                        'all(implies(0 <= t and t < idx, (%s[t][0], char_at(%s[t][1], 0)) in delta) for t in ints())' % (_T, _T),
+                        'all(implies((x, y) in delta, any(0 <= t and t < idx and %s[t][0] == x and char_at(%s[t][1], 0) == y and %s and delta[(x, y)] == (%s[t][2], char_at(%s[t][1], 1), char_at(%s[t][1], 3)) for t in ints())) for x in atoms() for y in atoms())' % (_T, _T, _last('t', 'idx'), _T, _T, _T),
+                        'all(implies(0 <= t and t < idx, strlen(%s[t][1]) == 4) for t in ints())' % _T]}},
+         theories=TH + ['word', 'naming'], props=['C17'],
+         note='a tokenised TM description (labels "ab,d") is turned into exactly the machine that was written: accepting / rejecting state = the declared one or a fresh name, blank = declared / conventional / default, tape alphabet = declared or used symbols plus the blank, '
+              'input alphabet = the declared one, or the tape symbols without the blank; every (state, symbol) entry of the transition function comes from the last line of the description for that pair (two lines for one pair are NOT rejected: the later one silently wins); an exception is raised exactly in the thirteen listed cases')
